@@ -115,6 +115,7 @@ class CtlRun(object):
         self.cmds = []              # every command in submission order (incl. preamble)
         self.listeners = []
         self.listener_results = []
+        self.late_attach = []
         self.live = {}              # name -> [lid,...]  (harness model of registered listeners)
         self.events = []            # dicts: eid, name, form, payloads, end (s2c offset)
         self.step_calls = []        # (eid, lid, payload) during the current step
@@ -405,6 +406,14 @@ class CtlRun(object):
         if not isinstance(d, defer.Deferred):
             sim.fail(self.prop + '.no-deferred', 'submission returned %r' % (d,))
         c.deferred = d
+        if self.prop == 'C03' and kind == 'plain' and c.text != 'QUIT' and not post_loss and reentrant_from is None and ch.chance(1, 6, 'lateattach'):
+            # fire and forget for now: the caller looks at the result (attaches its callbacks) only at the very end. A
+            # Deferred without callbacks is a result like any other: answered, or failed by the loss
+            sim.probe('command-whose-callbacks-are-attached-at-the-end')
+            c.observed = False
+            c.follow = 0        # (its result is looked at after the run: no follow-up submission from that callback)
+            self.late_attach.append(c)
+            return c
         d.addCallbacks(lambda res, c=c: self.on_result(c, True, res), lambda f, c=c: self.on_result(c, False, f))
         return c
 
@@ -864,6 +873,10 @@ class CtlRun(object):
         sim, prop = self.sim, self.prop
         if sim.already_called:
             sim.fail(prop + '.already-called-error', 'a Deferred was fired twice somewhere (%d AlreadyCalledError)' % sim.already_called)
+        for c in self.late_attach:
+            c.observed = True
+            c.deferred.addCallbacks(lambda res, c=c: self.on_result(c, True, res), lambda f, c=c: self.on_result(c, False, f))
+        self.late_attach = []
         for rec in self.listener_results:
             if rec['fired'] != 1:
                 sim.fail(prop + '.listener-registration-' + ('pending' if rec['fired'] == 0 else 'fired-twice'),
